@@ -2709,7 +2709,9 @@ int32_t parse_XML_fd(int fd, Document* doc, bool newxta, const std::vector<std::
 expression_t parseExpression(const char* str, Document* doc, bool newxtr)
 {
     ExpressionBuilder builder{*doc};
-    parse_XTA(str, &builder, newxtr, S_EXPRESSION, "");
+    // a text that is not an expression leaves no operand: the result is the empty expression
+    if (parse_XTA(str, &builder, newxtr, S_EXPRESSION, "") != 0 || builder.getExpressions().size() == 0)
+        return expression_t{};
     expression_t expr = builder.getExpressions()[0];
     if (!doc->has_errors()) {
         TypeChecker checker{*doc};
